@@ -169,25 +169,20 @@ Qed.
 
 (* ------------------------------------------------------------------------------------------ launching *)
 Definition no_space (c : N) : bool := negb (c =? 32).
-Definition plain (c : N) : bool := negb (c =? 32) && negb (c =? 61) && negb (c =? 36).   (* no space, =, $ *)
+Definition no_dollar (c : N) : bool := negb (c =? 36).
+(* wrapper paths: no space, =, $, double quote, % (they are built from validated snap and app names) *)
+Definition plain (c : N) : bool :=
+  negb (c =? 32) && negb (c =? 61) && negb (c =? 36) && negb (c =? 34) && negb (c =? 37).
+(* bytes that mean nothing inside a double-quoted argument *)
+Definition neutral (c : N) : bool := negb (c =? 34) && negb (c =? 92) && negb (c =? 36).
+(* the mount directory (built from the validated instance name and the revision) *)
+Definition mount_ok (m : bytes) : bool := negb (is_nil_b m) && forallb neutral m.
 
-Lemma split_all_sep a : forall b, forallb no_space a = true -> split_all 32 (a ++ 32 :: b) = a :: split_all 32 b.
+Lemma forallb_impl' (f g : N -> bool) l : (forall x, f x = true -> g x = true) -> forallb f l = true -> forallb g l = true.
 Proof.
-  induction a as [|x a IH]; intros b H; [reflexivity |].
-  cbn in H. apply andb_true_iff in H as [Hx Ha]. unfold no_space in Hx. apply negb_true_iff in Hx.
-  cbn [app split_all]. rewrite Hx, (IH b Ha). reflexivity.
+  intros H. induction l; cbn; [reflexivity |]. intros H1. apply andb_true_iff in H1 as [Ha Hl].
+  rewrite (H _ Ha), (IHl Hl). reflexivity.
 Qed.
-
-Lemma split_all_nosep a : forallb no_space a = true -> split_all 32 a = [a].
-Proof.
-  induction a as [|x a IH]; intros H; [reflexivity |].
-  cbn in H. apply andb_true_iff in H as [Hx Ha]. unfold no_space in Hx. apply negb_true_iff in Hx.
-  cbn [split_all]. rewrite Hx, (IH Ha). reflexivity.
-Qed.
-
-Definition lit_hint : bytes := [66;65;77;70;95;68;69;83;75;84;79;80;95;70;73;76;69;95;72;73;78;84;61].  (* BAMF_DESKTOP_FILE_HINT= *)
-Lemma lit_env_split : lit_env = [101;110;118] ++ 32 :: lit_hint.
-Proof. reflexivity. Qed.
 
 Lemma existsb_false_of_forallb (p q : N -> bool) l :
   (forall c, q c = true -> p c = false) -> forallb q l = true -> existsb p l = false.
@@ -196,61 +191,19 @@ Proof.
   rewrite (Hpq c Hc), (IH Hl). reflexivity.
 Qed.
 
-Lemma forallb_impl' (f g : N -> bool) l : (forall x, f x = true -> g x = true) -> forallb f l = true -> forallb g l = true.
-Proof.
-  intros H. induction l; cbn; [reflexivity |]. intros H1. apply andb_true_iff in H1 as [Ha Hl].
-  rewrite (H _ Ha), (IHl Hl). reflexivity.
-Qed.
+Ltac split_andb H :=
+  repeat match type of H with (_ && _ = true) => let H2 := fresh H in apply andb_true_iff in H as [H H2] end.
 
 Lemma plain_no_space c : plain c = true -> no_space c = true.
-Proof. unfold plain, no_space. intros H. apply andb_true_iff in H as [H _]. apply andb_true_iff in H as [H _]. exact H. Qed.
+Proof. unfold plain, no_space. intros H. split_andb H. exact H. Qed.
+Lemma plain_no_dollar c : plain c = true -> no_dollar c = true.
+Proof. unfold plain, no_dollar. intros H. split_andb H. assumption. Qed.
 Lemma plain_not_eq c : plain c = true -> (61 =? c) = false.
-Proof.
-  unfold plain. intros H. apply andb_true_iff in H as [H _]. apply andb_true_iff in H as [_ H].
-  apply negb_true_iff in H. rewrite N.eqb_sym. exact H.
-Qed.
+Proof. unfold plain. intros H. split_andb H. rewrite N.eqb_sym. apply negb_true_iff. assumption. Qed.
+Lemma plain_not_pct c : plain c = true -> (c =? 37) = false.
+Proof. unfold plain. intros H. split_andb H. apply negb_true_iff. assumption. Qed.
 
-(* as launched: with no space in the installed file name, the word after env's assignment is the wrapper *)
-Lemma words_exec df w rest :
-  forallb no_space df = true -> forallb no_space w = true ->
-  (rest = [] \/ exists r', rest = 32 :: r') ->
-  exists tl, split_all 32 (exec_env df ++ w ++ rest) = [101;110;118] :: (lit_hint ++ df) :: w :: tl.
-Proof.
-  intros Hdf Hw' Hrest. unfold exec_env. rewrite lit_env_split.
-  assert (E : (([101;110;118] ++ 32 :: lit_hint) ++ df ++ [32]) ++ w ++ rest =
-              [101;110;118] ++ 32 :: ((lit_hint ++ df) ++ 32 :: (w ++ rest))).
-  { repeat rewrite <- app_assoc. reflexivity. }
-  rewrite E.
-  assert (Hhd : forallb no_space (lit_hint ++ df) = true) by (rewrite forallb_app, Hdf; reflexivity).
-  rewrite (split_all_sep [101;110;118] _ eq_refl). rewrite (split_all_sep (lit_hint ++ df) _ Hhd).
-  destruct Hrest as [-> | (r' & ->)].
-  - rewrite app_nil_r, (split_all_nosep w Hw'). eexists; reflexivity.
-  - rewrite (split_all_sep w r' Hw'). eexists; reflexivity.
-Qed.
-
-Lemma hint_is_assignment df : is_assignment (lit_hint ++ df) = true.
-Proof. unfold is_assignment. rewrite existsb_app. reflexivity. Qed.
-
-Lemma launched_wrapper df w rest :
-  forallb no_space df = true -> forallb plain w = true -> w <> [] ->
-  (rest = [] \/ exists r', rest = 32 :: r') ->
-  launched (lit_exec ++ exec_env df ++ w ++ rest) = Some w.
-Proof.
-  intros Hdf Hw Hne Hrest. unfold launched. rewrite after_eq_exec. unfold words.
-  assert (Hw' : forallb no_space w = true) by (eapply forallb_impl'; [apply plain_no_space | exact Hw]).
-  destruct (words_exec df w rest Hdf Hw' Hrest) as (tl & ->).
-  destruct w as [|c w']; [congruence |].
-  assert (Hna : is_assignment (c :: w') = false).
-  { apply (existsb_false_of_forallb (N.eqb 61) plain); [apply plain_not_eq | exact Hw]. }
-  cbn [filter]. change (negb (is_nil_b [101;110;118])) with true. cbv iota.
-  change (negb (is_nil_b (lit_hint ++ df))) with true. cbv iota.
-  change (negb (is_nil_b (c :: w'))) with true. cbv iota.
-  rewrite beq_refl. cbn [env_program]. rewrite hint_is_assignment, Hna. reflexivity.
-Qed.
-
-(* the ${SNAP} substitution leaves a prefix without $ alone *)
-Definition no_dollar (c : N) : bool := negb (c =? 36).
-
+(* --- the ${SNAP} substitution *)
 Lemma subst_prefix m a : forall s, forallb no_dollar a = true -> subst_snap m (a ++ s) = a ++ subst_snap m s.
 Proof.
   unfold subst_snap. induction a as [|x a IH]; intros s H; [reflexivity |].
@@ -258,67 +211,290 @@ Proof.
   cbn [app replace_all]. cbn [lit_snapvar has_prefix]. rewrite N.eqb_sym, Hx. cbn [andb]. rewrite (IH s Ha). reflexivity.
 Qed.
 
-Lemma subst_nil m : subst_snap m [] = [].
-Proof. reflexivity. Qed.
-
 Lemma subst_space m r : subst_snap m (32 :: r) = 32 :: subst_snap m r.
 Proof. reflexivity. Qed.
 
-Lemma plain_no_dollar c : plain c = true -> no_dollar c = true.
-Proof. unfold plain, no_dollar. intros H. apply andb_true_iff in H as [_ H]. exact H. Qed.
-
-(* the Exec= line as written to the installed file, and what it launches *)
-Theorem exec_output_launches i df b :
-  exec_form i df b ->
-  forallb (fun c => no_space c && no_dollar c) df = true ->
-  (forall app, In app (d_apps i) -> forallb plain (wrapper i app) = true) ->
-  exists app rest', In app (d_apps i) /\
-    subst_snap (d_mount i) b = lit_exec ++ exec_env df ++ wrapper i app ++ rest' /\
-    (rest' = [] \/ exists r', rest' = 32 :: r') /\
-    launched (subst_snap (d_mount i) b) = Some (wrapper i app).
+Lemma replace_skip old new : forall k s, replace_all old new k s = replace_all old new 0 (skipn k s).
 Proof.
-  intros (app & rest & Hin & -> & Hr) Hdf Hw. specialize (Hw app Hin).
-  assert (Hdf1 : forallb no_space df = true) by (eapply forallb_impl'; [| exact Hdf]; intros x Hx; apply andb_true_iff in Hx as [Hx _]; exact Hx).
-  assert (Hdf2 : forallb no_dollar df = true) by (eapply forallb_impl'; [| exact Hdf]; intros x Hx; apply andb_true_iff in Hx as [_ Hx]; exact Hx).
-  assert (Hw2 : forallb no_dollar (wrapper i app) = true) by (eapply forallb_impl'; [apply plain_no_dollar | exact Hw]).
-  assert (Hpre : forallb no_dollar (lit_exec ++ exec_env df ++ wrapper i app) = true).
-  { unfold exec_env. rewrite !forallb_app, Hdf2, Hw2. reflexivity. }
-  assert (Es : subst_snap (d_mount i) (lit_exec ++ exec_env df ++ wrapper i app ++ rest) =
-               lit_exec ++ exec_env df ++ wrapper i app ++ subst_snap (d_mount i) rest).
-  { replace (lit_exec ++ exec_env df ++ wrapper i app ++ rest) with ((lit_exec ++ exec_env df ++ wrapper i app) ++ rest)
-      by (rewrite <- !app_assoc; reflexivity).
-    rewrite (subst_prefix _ _ _ Hpre). rewrite <- !app_assoc. reflexivity. }
-  assert (Hr' : subst_snap (d_mount i) rest = [] \/ exists r', subst_snap (d_mount i) rest = 32 :: r').
-  { destruct Hr as [-> | (r' & ->)]; [left; reflexivity | right; rewrite subst_space; eexists; reflexivity]. }
-  exists app, (subst_snap (d_mount i) rest). split; [assumption |]. split; [exact Es |]. split; [exact Hr' |].
-  rewrite Es. apply launched_wrapper; try assumption.
-  unfold wrapper. destruct (d_bindir i); discriminate.
+  induction k as [|k IH]; intros s; [reflexivity |].
+  destruct s as [|c r]; [reflexivity |]. cbn [replace_all skipn]. apply IH.
 Qed.
 
-(* finding: a desktop file whose NAME contains spaces makes env run something else *)
+Lemma has_prefix_app_stop x t : forall p a,
+  forallb (fun c => negb (c =? x)) p = true -> has_prefix p (a ++ x :: t) = has_prefix p a.
+Proof.
+  induction p as [|y p IH]; intros a H; [reflexivity |].
+  cbn in H. apply andb_true_iff in H as [Hy Hp]. apply negb_true_iff in Hy.
+  destruct a as [|z a]; cbn [app has_prefix].
+  - rewrite Hy. reflexivity.
+  - rewrite (IH a Hp). reflexivity.
+Qed.
+
+(* scanning the inside of a double-quoted argument: QN normal, QE after a backslash. `good st s`: from state st the
+   scan of s meets no closing quote and no unescaped $, and ends in the normal state *)
+Inductive qst := QN | QE.
+
+Fixpoint good (st : qst) (s : bytes) : bool :=
+  match s with
+  | [] => match st with QN => true | QE => false end
+  | c :: r => match st with
+              | QE => good QN r
+              | QN => if c =? 34 then false else if c =? 92 then good QE r else if c =? 36 then false else good QN r
+              end
+  end.
+
+Lemma good_esc_all a : good QN (esc_all a) = true.
+Proof.
+  induction a as [|c a IH]; [reflexivity |].
+  unfold esc_all in *. cbn [flat_map]. unfold esc at 1.
+  destruct ((c =? 34) || (c =? 96) || (c =? 36) || (c =? 92)) eqn:E.
+  - cbn [app good]. change (92 =? 34) with false. change (92 =? 92) with true. cbv iota. exact IH.
+  - apply orb_false_iff in E as [E E4]. apply orb_false_iff in E as [E E3]. apply orb_false_iff in E as [E1 E2].
+    cbn [app good]. rewrite E1, E4, E3. exact IH.
+Qed.
+
+Lemma good_neutral_app x s : forallb neutral x = true -> good QN (x ++ s) = good QN s.
+Proof.
+  induction x as [|c x IH]; intros H; [reflexivity |].
+  cbn in H. apply andb_true_iff in H as [Hc Hx]. unfold neutral in Hc. split_andb Hc.
+  apply negb_true_iff in Hc, Hc0, Hc1. cbn [app good]. rewrite Hc, Hc0, Hc1. auto.
+Qed.
+
+Lemma good_mount_escaped m s : mount_ok m = true -> good QE (m ++ s) = good QN s.
+Proof.
+  unfold mount_ok. destruct m as [|c m']; [discriminate |]. cbn [is_nil_b negb andb forallb].
+  intros H. apply andb_true_iff in H as [_ H]. cbn [app good]. apply good_neutral_app. exact H.
+Qed.
+
+(* substituting inside a quoted argument keeps it a well-formed quoted argument *)
+Lemma subst_quoted m t : mount_ok m = true ->
+  forall n E, (List.length E <= n)%nat -> forall st, good st E = true ->
+  exists E', subst_snap m (E ++ 34 :: t) = E' ++ 34 :: subst_snap m t /\ good st E' = true.
+Proof.
+  intros Hm. unfold subst_snap.
+  assert (Base : forall st, good st [] = true ->
+            exists E', replace_all lit_snapvar m 0 ([] ++ 34 :: t) = E' ++ 34 :: replace_all lit_snapvar m 0 t /\ good st E' = true).
+  { intros st H. exists []. split; [reflexivity | exact H]. }
+  induction n as [|n IH]; intros E Hl st Hg.
+  - destruct E; [apply Base; exact Hg | cbn in Hl; lia].
+  - destruct E as [|c r]; [apply Base; exact Hg |].
+    cbn [List.length] in Hl.
+    assert (Step : replace_all lit_snapvar m 0 ((c :: r) ++ 34 :: t) =
+                   if has_prefix lit_snapvar (c :: r)
+                   then m ++ replace_all lit_snapvar m 0 (skipn 6 (r ++ 34 :: t))
+                   else c :: replace_all lit_snapvar m 0 (r ++ 34 :: t)).
+    { cbn [app replace_all]. change (List.length lit_snapvar - 1)%nat with 6%nat. rewrite (replace_skip lit_snapvar m 6).
+      change (c :: r ++ 34 :: t) with ((c :: r) ++ 34 :: t).
+      rewrite (has_prefix_app_stop 34 t lit_snapvar (c :: r) eq_refl). reflexivity. }
+    rewrite Step. clear Step.
+    destruct (has_prefix lit_snapvar (c :: r)) eqn:Hp.
+    + apply has_prefix_spec in Hp. cbn [lit_snapvar List.length app] in Hp.
+      change (skipn 7 (c :: r)) with (skipn 6 r) in Hp.
+      remember (skipn 6 r) as r' eqn:Er'. injection Hp as Hc Hr. clear Er'. subst c r.
+      destruct st; [cbn in Hg; discriminate |].
+      cbn [good] in Hg. cbn [good N.eqb Pos.eqb] in Hg.
+      cbn [app skipn].
+      assert (Hl' : (List.length r' <= n)%nat) by (cbn [List.length] in Hl; lia).
+      destruct (IH r' Hl' QN Hg) as (E'' & HE & HgE).
+      exists (m ++ E''). split.
+      * rewrite HE. rewrite <- app_assoc. reflexivity.
+      * rewrite good_mount_escaped by exact Hm. exact HgE.
+    + destruct st.
+      * cbn [good] in Hg. destruct (c =? 34) eqn:E1; [discriminate |].
+        destruct (c =? 92) eqn:E2.
+        -- assert (Hl' : (List.length r <= n)%nat) by lia.
+           destruct (IH r Hl' QE Hg) as (E'' & HE & HgE).
+           exists (c :: E''). split; [cbn [app]; rewrite HE; reflexivity |]. cbn [good]. rewrite E1, E2. exact HgE.
+        -- destruct (c =? 36) eqn:E3; [discriminate |].
+           assert (Hl' : (List.length r <= n)%nat) by lia.
+           destruct (IH r Hl' QN Hg) as (E'' & HE & HgE).
+           exists (c :: E''). split; [cbn [app]; rewrite HE; reflexivity |]. cbn [good]. rewrite E1, E2, E3. exact HgE.
+      * cbn [good] in Hg.
+        assert (Hl' : (List.length r <= n)%nat) by lia.
+        destruct (IH r Hl' QN Hg) as (E'' & HE & HgE).
+        exists (c :: E''). split; [cbn [app]; rewrite HE; reflexivity |]. cbn [good]. exact HgE.
+Qed.
+
+(* --- the tokenizer *)
+Lemma tw_word : forall P acc Y, forallb no_space P = true ->
+  twords TWord acc (P ++ 32 :: Y) = (rev acc ++ P) :: twords TSpace [] Y.
+Proof.
+  induction P as [|c P IH]; intros acc Y H.
+  - cbn. rewrite app_nil_r. reflexivity.
+  - cbn in H. apply andb_true_iff in H as [Hc HP]. unfold no_space in Hc. apply negb_true_iff in Hc.
+    cbn [app twords]. rewrite Hc. rewrite (IH _ _ HP). cbn [rev]. rewrite <- app_assoc. reflexivity.
+Qed.
+
+Lemma tw_word_end : forall P acc, forallb no_space P = true -> twords TWord acc P = [rev acc ++ P].
+Proof.
+  induction P as [|c P IH]; intros acc H.
+  - cbn. rewrite app_nil_r. reflexivity.
+  - cbn in H. apply andb_true_iff in H as [Hc HP]. unfold no_space in Hc. apply negb_true_iff in Hc.
+    cbn [twords]. rewrite Hc. rewrite (IH _ HP). cbn [rev]. rewrite <- app_assoc. reflexivity.
+Qed.
+
+Definition tq (st : qst) : tst := match st with QN => TQuote | QE => TQuoteEsc end.
+
+Lemma tw_quote : forall E st acc Y, good st E = true ->
+  exists w, twords (tq st) acc (E ++ 34 :: Y) = (rev acc ++ w) :: twords TSpace [] Y.
+Proof.
+  induction E as [|c r IH]; intros st acc Y H.
+  - destruct st; [| discriminate]. exists []. cbn. rewrite app_nil_r. reflexivity.
+  - destruct st.
+    + cbn [good] in H. destruct (c =? 34) eqn:E1; [discriminate |].
+      destruct (c =? 92) eqn:E2.
+      * destruct (IH QE acc Y H) as (w & Hw). exists w. cbn [app tq twords]. rewrite E1, E2. exact Hw.
+      * destruct (c =? 36); [discriminate |].
+        destruct (IH QN (c :: acc) Y H) as (w & Hw). exists (c :: w). cbn [app tq twords]. rewrite E1, E2.
+        cbn [tq] in Hw. rewrite Hw. cbn [rev]. rewrite <- app_assoc. reflexivity.
+    + cbn [good] in H. destruct (IH QN (c :: acc) Y H) as (w & Hw). exists (c :: w). cbn [app tq twords].
+      cbn [tq] in Hw. rewrite Hw. cbn [rev]. rewrite <- app_assoc. reflexivity.
+Qed.
+
+Lemma tw_third w rest :
+  forallb plain w = true -> w <> [] -> (rest = [] \/ exists r', rest = 32 :: r') ->
+  exists tl, twords TSpace [] (w ++ rest) = w :: tl.
+Proof.
+  intros Hw Hne Hr. destruct w as [|c w']; [congruence |].
+  cbn in Hw. apply andb_true_iff in Hw as [Hc Hw'].
+  assert (Hs : forallb no_space w' = true) by (eapply forallb_impl'; [apply plain_no_space | exact Hw']).
+  unfold plain in Hc. apply andb_true_iff in Hc as [Hc _]. apply andb_true_iff in Hc as [Hc H34].
+  apply andb_true_iff in Hc as [Hc _]. apply andb_true_iff in Hc as [H32 _].
+  apply negb_true_iff in H32, H34.
+  cbn [app twords]. rewrite H32, H34.
+  destruct Hr as [-> | (r' & ->)].
+  - rewrite app_nil_r, (tw_word_end w' [c] Hs). eexists. reflexivity.
+  - rewrite (tw_word w' [c] r' Hs). eexists. reflexivity.
+Qed.
+
+Lemma unpercent_id : forall w, forallb plain w = true -> unpercent w = w.
+Proof.
+  induction w as [|c r IH]; intros H; [reflexivity |].
+  cbn in H. apply andb_true_iff in H as [Hc Hr]. destruct r as [|d r']; [reflexivity |].
+  change (unpercent (c :: d :: r')) with (if (c =? 37) && (d =? 37) then 37 :: unpercent r' else c :: unpercent (d :: r')).
+  rewrite (plain_not_pct _ Hc). cbn [andb]. rewrite (IH Hr). reflexivity.
+Qed.
+
+Lemma hint_assignment x : is_assignment (lit_hint ++ x) = true.
+Proof. unfold is_assignment. rewrite existsb_app. reflexivity. Qed.
+
+Lemma tw_hint_word a Y : forallb no_space a = true ->
+  twords TSpace [] (lit_env ++ lit_hint ++ a ++ 32 :: Y) = [101;110;118] :: (lit_hint ++ a) :: twords TSpace [] Y.
+Proof.
+  intros H.
+  change (twords TSpace [] (lit_env ++ lit_hint ++ a ++ 32 :: Y))
+    with ([101;110;118] :: twords TWord (rev lit_hint) (a ++ 32 :: Y)).
+  rewrite (tw_word a (rev lit_hint) Y H), rev_involutive. reflexivity.
+Qed.
+
+(* the common end of both cases: env, one assignment word, the wrapper *)
+Lemma launched_words w2 w tl :
+  is_assignment w2 = true -> forallb plain w = true ->
+  option_map unpercent (if beq [101;110;118] [101;110;118] then env_program (w2 :: w :: tl) else Some [101;110;118]) = Some w.
+Proof.
+  intros H2 Hw. rewrite beq_refl. cbn [env_program]. rewrite H2.
+  assert (Hna : is_assignment w = false).
+  { apply (existsb_false_of_forallb (N.eqb 61) plain); [apply plain_not_eq | exact Hw]. }
+  rewrite Hna. cbn [option_map]. rewrite (unpercent_id w Hw). reflexivity.
+Qed.
+
+Lemma not_reserved_props c : is_reserved c = false -> no_space c = true /\ no_dollar c = true /\ negb (c =? 34) = true.
+Proof.
+  unfold is_reserved, no_space, no_dollar. intros H.
+  destruct (N.eqb_spec c 32) as [-> |]; [discriminate |].
+  destruct (N.eqb_spec c 36) as [-> |]; [discriminate |].
+  destruct (N.eqb_spec c 34) as [-> |]; [discriminate |]. auto.
+Qed.
+
+Lemma forallb_of_existsb_false (p : N -> bool) l : existsb p l = false -> forallb (fun c => negb (p c)) l = true.
+Proof.
+  induction l as [|c l IH]; cbn; [reflexivity |]. intros H. apply orb_false_iff in H as [Hc Hl].
+  rewrite Hc, (IH Hl). reflexivity.
+Qed.
+
+(* as written to the installed file and as launched: whatever the desktop file is called, the program that runs is the
+   wrapper of one of the snap's apps *)
+Theorem exec_output_launches i df b :
+  exec_form i df b ->
+  mount_ok (d_mount i) = true ->
+  (forall app, In app (d_apps i) -> forallb plain (wrapper i app) = true) ->
+  exists app, In app (d_apps i) /\
+    has_prefix (lit_exec ++ lit_env) (subst_snap (d_mount i) b) = true /\
+    launched (subst_snap (d_mount i) b) = Some (wrapper i app).
+Proof.
+  intros (ap0 & rest & Hin & -> & Hr) Hm Hw. specialize (Hw ap0 Hin). exists ap0. split; [exact Hin |].
+  set (m := d_mount i). set (w := wrapper i ap0) in *.
+  assert (Hwd : forallb no_dollar w = true) by (eapply forallb_impl'; [apply plain_no_dollar | exact Hw]).
+  assert (Hne : w <> []) by (unfold w, wrapper; destruct (d_bindir i); discriminate).
+  assert (Hr' : subst_snap m rest = [] \/ exists r', subst_snap m rest = 32 :: r').
+  { destruct Hr as [-> | (r' & ->)]; [left; reflexivity | right; rewrite subst_space; eexists; reflexivity]. }
+  destruct (tw_third w (subst_snap m rest) Hw Hne Hr') as (tl & Htl).
+  unfold exec_env, quote_exec_arg.
+  change (pdouble (lit_hint ++ df)) with (lit_hint ++ pdouble df).
+  set (a := pdouble df).
+  destruct (existsb is_reserved (lit_hint ++ a)) eqn:Eres; cbn [negb].
+  - (* quoted *)
+    change (esc_all (lit_hint ++ a)) with (lit_hint ++ esc_all a).
+    set (E := esc_all a). assert (HgE : good QN E = true) by apply good_esc_all.
+    assert (Eq : lit_exec ++ (lit_env ++ ([34] ++ (lit_hint ++ E) ++ [34]) ++ [32]) ++ w ++ rest =
+                 (lit_exec ++ lit_env ++ 34 :: lit_hint) ++ E ++ 34 :: (32 :: w) ++ rest).
+    { repeat rewrite <- app_assoc. reflexivity. }
+    rewrite Eq. rewrite (subst_prefix m _ _ (eq_refl : forallb no_dollar (lit_exec ++ lit_env ++ 34 :: lit_hint) = true)).
+    destruct (subst_quoted m ((32 :: w) ++ rest) Hm (List.length E) E (le_n _) QN HgE) as (E' & HE & HgE').
+    rewrite HE.
+    rewrite (subst_prefix m (32 :: w) rest) by (cbn [forallb]; rewrite Hwd; reflexivity).
+    split; [reflexivity |].
+    unfold launched.
+    change (after_eq ((lit_exec ++ lit_env ++ 34 :: lit_hint) ++ E' ++ 34 :: (32 :: w) ++ subst_snap m rest))
+      with (lit_env ++ 34 :: lit_hint ++ E' ++ 34 :: 32 :: w ++ subst_snap m rest).
+    change (twords TSpace [] (lit_env ++ 34 :: lit_hint ++ E' ++ 34 :: 32 :: w ++ subst_snap m rest))
+      with ([101;110;118] :: twords TQuote (rev lit_hint) (E' ++ 34 :: 32 :: w ++ subst_snap m rest)).
+    destruct (tw_quote E' QN (rev lit_hint) (32 :: w ++ subst_snap m rest) HgE') as (w0 & Hw0).
+    cbn [tq] in Hw0. rewrite Hw0. rewrite rev_involutive.
+    change (twords TSpace [] (32 :: w ++ subst_snap m rest)) with (twords TSpace [] (w ++ subst_snap m rest)).
+    rewrite Htl. apply launched_words; [apply hint_assignment | exact Hw].
+  - (* no reserved byte: the argument is written as it is *)
+    pose proof (forallb_of_existsb_false _ _ Eres) as Hnr.
+    assert (Hp : forall c, negb (is_reserved c) = true -> no_space c = true /\ no_dollar c = true /\ negb (c =? 34) = true)
+      by (intros c Hc; apply not_reserved_props; apply negb_true_iff; exact Hc).
+    assert (Hs : forallb no_space (lit_hint ++ a) = true) by (eapply forallb_impl'; [| exact Hnr]; intros c Hc; apply (Hp c Hc)).
+    assert (Hd : forallb no_dollar (lit_hint ++ a) = true) by (eapply forallb_impl'; [| exact Hnr]; intros c Hc; apply (Hp c Hc)).
+    assert (Eq : lit_exec ++ (lit_env ++ (lit_hint ++ a) ++ [32]) ++ w ++ rest =
+                 (lit_exec ++ lit_env ++ (lit_hint ++ a) ++ 32 :: w) ++ rest).
+    { repeat rewrite <- app_assoc. reflexivity. }
+    rewrite Eq.
+    assert (Hpre : forallb no_dollar (lit_exec ++ lit_env ++ (lit_hint ++ a) ++ 32 :: w) = true).
+    { pose proof Hd as Hd'. rewrite forallb_app in Hd'. apply andb_true_iff in Hd' as [_ Hd2].
+      rewrite !forallb_app. cbn [forallb]. rewrite Hd2, Hwd. reflexivity. }
+    rewrite (subst_prefix m _ rest Hpre).
+    split; [reflexivity |].
+    unfold launched. rewrite <- !app_assoc. rewrite after_eq_exec. cbn [app].
+    assert (Hsa : forallb no_space a = true) by (rewrite forallb_app in Hs; apply andb_true_iff in Hs as [_ Hs]; exact Hs).
+    rewrite (tw_hint_word a (w ++ subst_snap m rest) Hsa). rewrite Htl.
+    apply launched_words; [apply hint_assignment | exact Hw].
+Qed.
+
+(* the repaired finding (0f3f7c0): a desktop file named `a sh -c id x.desktop` is now ONE quoted word after env *)
 Definition bad_info : dinfo := mkInfo (bs "foo") [] [bs "app"] (bs "/snap/bin") (bs "/snap/foo/7").
 Definition bad_df : bytes := bs "/var/lib/snapd/desktop/applications/foo_a sh -c id x.desktop".
 Definition bad_content : bytes := bs "Exec=foo.app %U".
 
-Lemma exec_filename_refuted_witness :
+Lemma exec_filename_quoted_example :
   sanitize_lines bad_info bad_df [bad_content] =
-    [bs "Exec=env BAMF_DESKTOP_FILE_HINT=/var/lib/snapd/desktop/applications/foo_a sh -c id x.desktop /snap/bin/foo.app %U"] /\
-  launched (bs "Exec=env BAMF_DESKTOP_FILE_HINT=/var/lib/snapd/desktop/applications/foo_a sh -c id x.desktop /snap/bin/foo.app %U")
-    = Some (bs "sh").
+    [bs "Exec=env " ++ [34] ++ bs "BAMF_DESKTOP_FILE_HINT=/var/lib/snapd/desktop/applications/foo_a sh -c id x.desktop" ++ [34] ++
+     bs " /snap/bin/foo.app %U"] /\
+  twords TSpace [] (after_eq (hd [] (sanitize_lines bad_info bad_df [bad_content]))) =
+    [bs "env"; bs "BAMF_DESKTOP_FILE_HINT=/var/lib/snapd/desktop/applications/foo_a sh -c id x.desktop"; bs "/snap/bin/foo.app"; bs "%U"] /\
+  launched (hd [] (sanitize_lines bad_info bad_df [bad_content])) = Some (bs "/snap/bin/foo.app").
+Proof. vm_compute. repeat split; reflexivity. Qed.
+
+(* a name with quotes, backslash, dollar, percent and ${SNAP}: still the wrapper *)
+Lemma exec_filename_nasty_example :
+  mount_ok (d_mount bad_info) = true /\
+  launched (hd [] (sanitize_lines bad_info (bs "/d/foo_a" ++ [34; 32; 92; 34] ++ bs " sh ${SNAP} 100%U `id`.desktop") [bad_content]))
+    = Some (bs "/snap/bin/foo.app").
 Proof. vm_compute. split; reflexivity. Qed.
 
-Theorem exec_filename_refuted :
-  exists i df line l, In l (sanitize_lines i df [line]) /\ has_prefix lit_exec l = true /\
-    (forall app, In app (d_apps i) -> forallb plain (wrapper i app) = true) /\
-    forall app, In app (d_apps i) -> launched l <> Some (wrapper i app).
-Proof.
-  exists bad_info, bad_df, bad_content. eexists. destruct exec_filename_refuted_witness as [E L].
-  rewrite E. split; [left; reflexivity |]. split; [reflexivity |]. split.
-  - intros app [<- | []]. reflexivity.
-  - intros app [<- | []]. rewrite L. vm_compute. discriminate.
-Qed.
-
-(* non-vacuity of the guarded statement *)
 Lemma exec_ok_example :
   sanitize bad_info (bs "/var/lib/snapd/desktop/applications/foo_app.desktop")
            (bs "[Desktop Entry]" ++ [10] ++ bs "TryExec=/bin/sh" ++ [10] ++ bs "Exec=foo.app %U" ++ [10] ++ bs "Icon=${SNAP}/meta/gui/icon.png" ++ [10]) =
@@ -326,6 +502,10 @@ Lemma exec_ok_example :
   bs "Exec=env BAMF_DESKTOP_FILE_HINT=/var/lib/snapd/desktop/applications/foo_app.desktop /snap/bin/foo.app %U" ++ [10] ++
   bs "Icon=/snap/foo/7/meta/gui/icon.png" ++ [10].
 Proof. vm_compute. reflexivity. Qed.
+
+(* files whose name has a control character never reach the sanitizer *)
+Lemma control_names_skipped i dir file content : has_control file = true -> derive_one i dir file content = None.
+Proof. unfold derive_one. intros ->. destruct (has_suffix lit_dot_desktop file); reflexivity. Qed.
 
 (* the allowlist in the source is the pinned specification list (re-checked against the regenerated list on every run) *)
 Lemma allowlist_pinned : valid_line_alts = spec_line_alts.
